@@ -196,9 +196,14 @@ where
         }
 
         trace!("checkout interested in pooled connections");
-        inner.waiting.entry(token).or_default().push_back(tx);
+        let follows_attempt = inner.connecting.contains(&token);
+        inner
+            .waiting
+            .entry(token)
+            .or_default()
+            .push_back((tx, follows_attempt));
 
-        if inner.connecting.contains(&token) {
+        if follows_attempt {
             trace!("connection in progress elsewhere, will wait");
             connector = None;
             Checkout::new(token, self.as_ref(), rx, connector, None, &inner.config)
@@ -314,7 +319,9 @@ where
     config: Config,
 
     connecting: HashSet<Token>,
-    waiting: HashMap<Token, VecDeque<Sender<Pooled<C, B>>>>,
+    /// Requests interested in a connection for a token. The flag marks requests which
+    /// only follow somebody else's connection attempt and do not dial themselves.
+    waiting: HashMap<Token, VecDeque<(Sender<Pooled<C, B>>, bool)>>,
 
     idle: HashMap<Token, IdleConnections<C, B>>,
 }
@@ -340,7 +347,11 @@ where
 
             // Requests which only wait for this attempt have nothing left to wait
             // for: dropping their senders lets them fail instead of waiting forever.
-            self.waiting.remove(&token);
+            // Requests with an attempt of their own stay registered, so that a
+            // connection released later can still pre-empt their attempt.
+            if let Some(waiters) = self.waiting.get_mut(&token) {
+                waiters.retain(|(_, follows_attempt)| !follows_attempt);
+            }
         }
     }
 }
@@ -370,7 +381,7 @@ where
         if let Some(waiters) = self.waiting.get_mut(&token) {
             trace!(waiters=%waiters.len(), ?token, "walking waiters");
 
-            while let Some(waiter) = waiters.pop_front() {
+            while let Some((waiter, _)) = waiters.pop_front() {
                 if waiter.is_closed() {
                     trace!("skipping closed waiter");
                     continue;
